@@ -14,6 +14,16 @@ func Min(a, b int) int {
 	return b
 }
 
+// CapHint returns a slice capacity for collecting up to want of n available items: want when it
+// lies in [0, n], else n. Callers derive want from a caller-supplied limit (limit*k), which may
+// be huge or may have overflowed to a negative number; neither may reach make().
+func CapHint(n, want int) int {
+	if want < 0 || want > n {
+		return n
+	}
+	return want
+}
+
 // Max returns the maximum of two integers.
 func Max(a, b int) int {
 	if a > b {
